@@ -134,6 +134,76 @@ def h_seqdiff(ex, L, ncol):
     return {"diff": res}
 
 
+def h_window_lemma(ex, sampled):
+    """sliding_windows for EVERY sequence length, width and stride: the loop is replaced by one arbitrary iteration
+    (sizes symbolic); every slice the kernel receives is a full in-range window [i*stride, i*stride + width) -- numpy
+    would silently clamp a slice that runs past the end --, every output row index is in range, and the number of rows
+    is exactly the number of window starts that fit"""
+    import ast
+    import os
+    from harness.C07_plan import _OneIteration, _declared_locals
+    path = os.path.join(loader.REPO, "vectorizers", "transformers", "sliding_windows.py")
+    tree = ast.parse(open(path).read())
+    fdef = [n for n in tree.body if isinstance(n, ast.FunctionDef) and n.name == "sliding_windows"][0]
+    declared = _declared_locals(fdef)
+    fdef.decorator_list = []
+    fdef = ast.fix_missing_locations(_OneIteration(declared).visit(fdef))
+    L = fresh_int("L", 1, 10 ** 6)
+    width = fresh_int("width", 1, 10 ** 6)
+    stride = fresh_int("stride", 1, 10 ** 6)
+    assume(L >= width)
+    register("L", L); register("width", width); register("stride", stride)
+    slices, rows, shapes, hav = [], [], [], {}
+
+    class _Win:
+        def __getitem__(self, k):
+            return self
+
+    class _Seq:
+        shape = (L,)
+        dtype = np.float64
+
+        def __getitem__(self, k):
+            assert isinstance(k, slice) and k.step is None
+            slices.append((k.start, k.stop))
+            return _Win()
+
+    class _Res:
+        def __setitem__(self, k, v):
+            rows.append(k)
+
+    class _Sample:
+        shape = ((width - 1) if sampled else width,)
+
+    class _NP:
+        @staticmethod
+        def empty(shape, dtype=None):
+            shapes.append(shape)
+            return _Res()
+
+        ceil = staticmethod(np.ceil)
+
+    def _havoc(name, *a):
+        v = fresh_int("iter_" + name)
+        assume(sand(v >= 0, v < a[0]))
+        hav[name] = v
+        return v
+    ns = {"np": _NP, "_havoc": _havoc, "_typed": lambda n, v: v, "int": loader.INJECT["int"], "tuple": tuple}
+    exec(compile(ast.Module(body=[fdef], type_ignores=[]), path, "exec"), ns)
+    assume(width >= 2 if sampled else True)
+    call(ns["sliding_windows"], _Seq(), width, stride, _Sample(), lambda w: w, 1, np.float64, 0, 0)
+    check("exactly one window is cut and one row written per iteration", len(slices) == 1 and len(rows) == 1 and len(shapes) == 1)
+    if not (len(slices) == 1 and len(rows) == 1 and len(shapes) == 1):
+        return None
+    (a, b), n_rows, i = slices[0], shapes[0][0], hav["i"]
+    check("the window is [i*stride, i*stride + width), entirely inside the sequence (no silent clamping)",
+          sand(a == i * stride, b == a + width, a >= 0, b <= L))
+    check("the row written is row i, inside the result", sand(rows[0] == i, rows[0] >= 0, rows[0] < n_rows))
+    check("the number of windows is the number of starts that fit: (n-1)*stride + width <= L < n*stride + width",
+          sand(n_rows >= 1, (n_rows - 1) * stride + width <= L, n_rows * stride + width > L))
+    return None
+
+
 def cases(tier):
     cs = []
     if tier == "quick":
@@ -151,6 +221,13 @@ def cases(tier):
                        dict(L=L, ncol=nc, sample_form=sf, kernel=k), replay="C19:replay_sliding", witness="C19:witness_sliding",
                        bounds={"L": L, "columns": nc or "1-d", "width": "1..4 symbolic", "stride": "1..3 symbolic", "pad_width": "0..2 symbolic",
                                "window_sample": sf, "kernel": k, "values": "reals"}, functions=FUNCS, max_witness=4))
+    for sampled in (False, True):
+        cs.append(Case("window_lemma[all sizes,%s]" % ("sampled" if sampled else "full window"), h_window_lemma, dict(sampled=sampled),
+                       replay="C19:replay_window_lemma", functions=FUNCS[:1], fast_ms=3000,
+                       assumptions=["pad_width = 0 in the lemma (padding only lengthens the sequence before the loop)",
+                                    "np.ceil of the float quotient is the exact integer ceiling (exact below 2^53; L <= 10^6 here)",
+                                    "loop replaced by one arbitrary iteration (the body carries no state between iterations)"],
+                       bounds={"L, width, stride": "symbolic 1 .. 10^6, L >= width", "iteration": "arbitrary i"}))
     for L, nc in dgrid:
         cs.append(Case("seqdiff[L=%d,cols=%d]" % (L, nc), h_seqdiff, dict(L=L, ncol=nc), replay="C19:replay_seqdiff",
                        bounds={"L": L, "columns": nc or "1-d", "stride": "1..3 symbolic"}, functions=FUNCS))
